@@ -75,12 +75,34 @@ def field_fit(prog_desc):
     return None
 
 
+def label_offsets(prog_desc, oplist):
+    """A relative branch written with a label must carry the signed distance to that label, and it
+    must fit the signed 8-bit field (otherwise the machine re-interprets it)."""
+    from hera.data import Token
+    import hera.op as op
+    labels = {k: v for k, kind, v in prog_desc["symtab"] if kind == "label"}
+    for i, d in enumerate(prog_desc["code"]):
+        cls = getattr(op, d["cls"], None)
+        if cls is None or not issubclass(cls, op.RelativeBranch) or d["orig"] < 0:
+            continue
+        src = oplist[d["orig"]]
+        if not (src.tokens and src.tokens[0].type == Token.SYMBOL and src.tokens[0].value in labels):
+            continue
+        off = d["toks"][0][1]
+        want = labels[src.tokens[0].value] - i
+        if off != want or not -128 <= off <= 127:
+            return "%s(%s) at instruction %d is emitted with offset %r; the label is %d instructions away and the field is signed 8-bit" % (
+                d["cls"], src.tokens[0].value, i, off, want)
+    return None
+
+
 def correspondence(ctx, model_available=True):
     quick = ctx.tier == "quick"
     rng = ctx.rng
     res = {"cases": 0, "disagreements": [], "spec_failures": [], "model_available": model_available,
            "distribution": {"accepted": 0, "rejected": 0, "stage_runs": 0}}
     nontrivial = set()
+    mcases = []
     for k in range(300 if quick else 3000):
         lines = pc.gen_valid(rng)
         if k % 5 == 0:
@@ -103,12 +125,17 @@ def correspondence(ctx, model_available=True):
         if "raise" in r:
             res["spec_failures"].append({"what": "check raised %s" % r["raise"], "program": text, "mode": mode})
             continue
+        if len(mcases) < (100 if quick else 1000):
+            desc = [oc.describe_real_op(o) for o in ops]
+            for d in desc:
+                d["toks"] = [list(pc.fix_tok(t)) for t in d["toks"]]
+            mcases.append((text, cfg, desc, r))
         if r["errors"]:
             res["distribution"]["rejected"] += 1
             continue
         res["distribution"]["accepted"] += 1
         nontrivial.add(text)
-        bad = field_fit(r)
+        bad = field_fit(r) or label_offsets(r, ops)
         if bad:
             res["spec_failures"].append({"what": "accepted in mode %r: %s" % (mode, bad), "program": text})
             continue
@@ -116,6 +143,22 @@ def correspondence(ctx, model_available=True):
         res["distribution"]["stage_runs"] += 1
         if bad:
             res["spec_failures"].append({"what": "accepted program, then %s" % bad, "program": text, "mode": mode})
+    # the hand model of checker.check() the theorems are about, on the same programs
+    if model_available and mcases:
+        import coqrun
+        terms = ["enc_check (check %s %s)" % (pc.cs_term(cfg), pc.ops_term(desc)) for _, cfg, desc, _ in mcases]
+        outs = coqrun.eval_cases("C08m", pc.HEADER, terms, shard=60)
+        agree = 0
+        for (text, cfg, _, r), o in zip(mcases, outs):
+            m = pc.decode_check(o)
+            if m != r:
+                diffk = [k for k in set(list(r) + list(m)) if r.get(k) != m.get(k)]
+                res["disagreements"].append({"case": {"program": text, "settings": cfg}, "fields": diffk,
+                                             "impl": {k: r.get(k) for k in diffk}, "model": {k: m.get(k) for k in diffk}})
+            else:
+                agree += 1
+        res["model_vs_impl_agree"] = agree
+        res["distribution"]["model_cases"] = len(mcases)
     res["spec_failures"] = res["spec_failures"][:5]
     res["nontrivial"] = len(nontrivial)
     res["rule"] = ("generated programs (mostly valid; one in five with planted faults) in run / assemble / preprocess "
